@@ -243,7 +243,7 @@ Proof.
 Qed.
 
 Lemma step_SI : forall names s o,
-  SI names s -> incl (op_names o) names -> no_suffix_clash (transforms s) names ->
+  SI names s -> incl (brought s o) names -> no_suffix_clash (transforms s) names ->
   SI names (step_keep s o) /\ transforms (step_keep s o) = transforms s.
 Proof.
   intros names s o HS Hn NC. unfold step_keep.
@@ -259,7 +259,7 @@ Proof.
   - destruct (replace_curve_item s ix a) as [s'|e] eqn:E; [|auto].
     eapply replace_SI; eauto. apply Hn. left; reflexivity.
   - destruct v as [d|a]; simpl.
-    + destruct (key_index (keys s) k) as [n|] eqn:K.
+    + simpl in Hn. destruct (key_index (keys s) k) as [n|] eqn:K.
       * unfold update_curve. simpl. rewrite K.
         destruct (update_at_ix s (Z.of_nat n) _) as [s'|e] eqn:E; [|auto]. eapply update_SI; eauto.
       * unfold append_curve, insert_curve. simpl.
@@ -276,7 +276,7 @@ Proof.
 Qed.
 
 Lemma reachable_SI : forall names ops s,
-  SI names s -> incl (flat_map op_names ops) names -> no_suffix_clash (transforms s) names ->
+  SI names s -> incl (brought_all s ops) names -> no_suffix_clash (transforms s) names ->
   SI names (run s ops) /\ transforms (run s ops) = transforms s.
 Proof.
   intros names. induction ops as [|o ops IH]; intros s HS Hn NC; unfold run in *; simpl; [auto|].
@@ -289,9 +289,9 @@ Proof.
 Qed.
 
 Lemma inv_step : forall s o,
-  Inv s -> no_suffix_clash (transforms s) (origs s ++ op_names o) -> Inv (step_keep s o).
+  Inv s -> no_suffix_clash (transforms s) (origs s ++ brought s o) -> Inv (step_keep s o).
 Proof.
-  intros s o HI NC. apply (SI_Inv (origs s ++ op_names o)).
+  intros s o HI NC. apply (SI_Inv (origs s ++ brought s o)).
   apply step_SI; auto.
   - destruct (Inv_SI s HI) as [A [B C]]. split; [assumption|split; [assumption|]].
     intros y Hy. apply in_or_app. left. auto.
@@ -299,13 +299,34 @@ Proof.
 Qed.
 
 Lemma inv_reachable_from : forall s ops,
-  Inv s -> no_suffix_clash (transforms s) (origs s ++ flat_map op_names ops) -> Inv (run s ops).
+  Inv s -> no_suffix_clash (transforms s) (origs s ++ brought_all s ops) -> Inv (run s ops).
 Proof.
-  intros s ops HI NC. apply (SI_Inv (origs s ++ flat_map op_names ops)).
+  intros s ops HI NC. apply (SI_Inv (origs s ++ brought_all s ops)).
   apply reachable_SI; auto.
   - destruct (Inv_SI s HI) as [A [B C]]. split; [assumption|split; [assumption|]].
     intros y Hy. apply in_or_app. left. auto.
   - intros x Hx. apply in_or_app. right. assumption.
+Qed.
+
+(* the state-independent upper bound op_names *)
+Lemma brought_incl : forall s o, incl (brought s o) (op_names o).
+Proof.
+  intros s o. destruct o; try apply incl_refl. destruct v; [|apply incl_refl].
+  simpl. destruct (key_index (keys s) k); [intros x []|apply incl_refl].
+Qed.
+Lemma brought_all_incl : forall ops s, incl (brought_all s ops) (flat_map op_names ops).
+Proof.
+  induction ops as [|o ops IH]; intro s; simpl; [apply incl_refl|].
+  apply incl_app; [apply incl_appl; apply brought_incl|apply incl_appr; apply IH].
+Qed.
+Lemma no_clash_incl : forall tr a b, incl a b -> no_suffix_clash tr b -> no_suffix_clash tr a.
+Proof. intros tr a b H NC x y k Hx Hy. apply NC; apply H; assumption. Qed.
+Lemma inv_reachable_names : forall s ops,
+  Inv s -> no_suffix_clash (transforms s) (origs s ++ flat_map op_names ops) -> Inv (run s ops).
+Proof.
+  intros s ops HI NC. apply inv_reachable_from; [assumption|].
+  eapply no_clash_incl; [|exact NC]. apply incl_app; [apply incl_appl; apply incl_refl|].
+  apply incl_appr. apply brought_all_incl.
 Qed.
 
 Lemma inv_fresh : Inv fresh_las.
@@ -323,4 +344,18 @@ Proof.
     - rewrite T. assumption.
     - apply IH; [assumption|congruence|]. intros x Hx. apply Hi. right. assumption. }
   apply G; [apply SI_empty|reflexivity|apply incl_refl].
+Qed.
+
+(* ======================================================================================= *)
+(* composed: after any history on a fresh LASFile, key n finds array n of the list model     *)
+
+Lemma reachable_lookup : forall s ops n k,
+  Inv s -> no_suffix_clash (transforms s) (origs s ++ brought_all s ops) ->
+  nth_error (keys (run s ops)) n = Some k ->
+  las_getitem (run s ops) (KStr k) = spec_int (fold_left spec_keep (resolved s ops) (abs s)) (Z.of_nat n)
+  /\ key_index (keys (run s ops)) k = Some n.
+Proof.
+  intros s ops n k HI NC E. destruct (inv_reachable_from s ops HI NC) as [I1' _].
+  split; [|apply key_index_own; assumption].
+  rewrite <- refinement. apply obs_key; assumption.
 Qed.
